@@ -254,3 +254,27 @@ def precedence_decides(ast):
             if precedence_decides(c):
                 return True
     return False
+
+
+def language_upto(ast, n):
+    """bounded language of an AST by structural recursion (independent of the Thompson construction)"""
+    k = ast[0]
+    if k == "sym":
+        return {(ast[1],)} if n >= 1 else set()
+    if k == "eps":
+        return {()}
+    if k == "union":
+        return language_upto(ast[1], n) | language_upto(ast[2], n)
+    if k == "concat":
+        A, B = language_upto(ast[1], n), language_upto(ast[2], n)
+        return {u + v for u in A for v in B if len(u) + len(v) <= n}
+    if k == "star":
+        A = language_upto(ast[1], n) - {()}
+        res = {()}
+        cur = {()}
+        while cur:
+            nxt = {u + v for u in cur for v in A if len(u) + len(v) <= n} - res
+            res |= nxt
+            cur = nxt
+        return res
+    raise ValueError(k)
